@@ -201,32 +201,54 @@ theorem iterateFrom_status :
     wholeBody (footprint (mpt_IterateFrom :: mptScope)) mpt_IterateFrom = false := by
   decide +kernel
 
+/-- name of the trie's store field (resolved by type) -/
+def dbFieldName : String := mptInfo.fields.getD (dbF - 1) ""
+
+def plainWriteKind : AccKind → Bool
+  | .assign | .append | .delete | .mapWrite | .innerWrite | .addrOf | .unknown => true
+  | _ => false
+
+/-- every write the method itself makes INTO the store object behind `db` (a field of that LevelNodeDB, e.g. its
+`version`) is made holding the trie's write lock AND that store's own mutex -/
+def storeInnerWritesLocked (m : Method) : Bool :=
+  m.accesses.all (fun a => !(a.kind == .innerWrite && a.fid == dbF) ||
+    (a.mode == .write && a.sub == dbFieldName ++ "." ++ levelNodeDBInfo.primary))
+
+/-- ... and every write made by the store's OWN methods — the entry points of the LevelNodeDB table: exported methods
+and unexported ones no LevelNodeDB method calls, such as a locking setter — happens with the store's mutex held
+exclusively; the methods reached from `m` through the store field are rows of that table -/
+def storeMethodsLocked (m : Method) : Bool :=
+  (levelNodeDB.filter (fun x => x.exported || !levelNodeDB.any (fun y => y.calls.any (fun c => c.callee == x.name)))).all
+    (fun x => x.lock != .unknown && x.accesses.all (fun a => !plainWriteKind a.kind || a.mode == .write)) &&
+  (calledThroughT [m] mptInfo "NodeDB").all (fun n => levelNodeDB.any (fun x => x.name == n))
+
 /-- `MergeMPTChanges`: three critical sections (it reads its own root and store, and the child's root, before it
 takes the write lock: check-then-act, repeated under the lock by `mergeChanges`) — that is why it is outside the
-discipline. Its assignment of `db.version` — a field of the LevelNodeDB behind `db` — is made holding the trie's
-write lock AND (since 0a1942f) the store's own mutex `db.mutex` -/
+discipline. Every write of a field of the LevelNodeDB behind `db` that it reaches (the store's `version`, since
+0a1942f) happens with that store's mutex held exclusively — whether the write stands inline in `MergeMPTChanges` or in
+a method of the store; `GetDBVersion` reads it under the store's read lock -/
 theorem mergeMPTChanges_status :
     mpt_MergeMPTChanges.sections = 3 ∧
-    (mpt_MergeMPTChanges.accesses.filter (fun a => a.kind == .innerWrite)).map
-      (fun a => (a.fid == dbF, a.mode, a.subId != 0)) = [(true, .write, true)] ∧  -- into the store object, under another lock
+    storeInnerWritesLocked mpt_MergeMPTChanges = true ∧ storeMethodsLocked mpt_MergeMPTChanges = true ∧
     levelNodeDB_GetDBVersion.accesses.map (fun a => (a.kind, a.mode)) = [(.read, .read)] := by
   decide +kernel
 
-/-- … so, in the LevelNodeDB's own lock space, the write of `version` (field 6, store mutex held in W mode) and
+/-- … so, in the LevelNodeDB's own lock space, a write of `version` with the store's mutex held in W mode and
 `LevelNodeDB.GetDBVersion`'s read under the store's read lock exclude each other -/
 theorem mergeMPTChanges_version_protected :
     Protected { loc := 6, write := true, sub := 0, held := some .W } { loc := 6, write := false, sub := 0, held := some .R } := by
   simp [Protected]
 
-/-- `MergeMPTChanges` as the extractor read it before 0a1942f (hand-copied: `db.version = newLNDB.version` under the
-trie's write lock only) -/
+/-- `MergeMPTChanges` as the extractor read it before 0a1942f (hand-copied access: `db.version = newLNDB.version` under
+the trie's write lock only, no lock of the store) -/
 def oldMergeMPTChanges : Method :=
   { mpt_MergeMPTChanges with
-      accesses := mpt_MergeMPTChanges.accesses.map (fun a => if a.kind == .innerWrite then unsub a else a) }
+      accesses := { field := dbFieldName, fid := dbF, kind := .innerWrite, mode := .write, sub := "", subId := 0,
+                    callee := "version", via := "", goroutine := 0, line := 0 } ::
+                  mpt_MergeMPTChanges.accesses.filter (fun a => a.kind != .innerWrite) }
 
-theorem mergeMPTChangesOld_status :
-    (oldMergeMPTChanges.accesses.filter (fun a => a.kind == .innerWrite)).map
-      (fun a => (a.fid == dbF, a.mode, a.subId)) = [(true, .write, 0)] := by
+/-- the old form is rejected -/
+theorem mergeMPTChangesOld_status : storeInnerWritesLocked oldMergeMPTChanges = false := by
   decide +kernel
 
 /-- the pre-fix conflicting pair: the write of `version` WITHOUT the store's mutex against `GetDBVersion`'s read
